@@ -321,6 +321,8 @@ class Forest(WeightedGraph):
         parents = iorder[self.parents[order]]
         self.parents = parents
         self.define_graph_attributes()
+        # the cached children lists describe the old numbering
+        self.children = []
         return order
 
     def leaves_of_a_subtree(self, ids, custom=False):
